@@ -113,6 +113,7 @@ package verifspec
 //@ func internal/sourcemapx.Filter.Write
 //@ property C19
 //@   requires wf(p)
+//@   assigns f.line, f.column, out(f.Writer)
 //@   requires 0 <= f.line && f.line <= 1000000000000000 && 0 <= f.column && f.column <= 1000000000000000
 //@   ghost D = empty()
 //@   panics_only_if f.goMappingCallback != nil
@@ -191,3 +192,28 @@ package verifspec
 //@ property C19
 //@   requires fc != nil && fc.pkgCtx != nil && fc.pkgCtx.Info != nil && fc.pkgCtx.Info.Info != nil && !isnil(fc.pkgCtx.Info.Info.Types) && !isnil(fc.pkgCtx.Info.Info.Uses)
 //@   ensures result != nil && result.NamePos == objPos(key(obj))
+
+// ---- Filter.WriteJS: plain JavaScript (prelude, .inc.js) goes to the output either unchanged (no minification, no
+// mapping) or exactly as esbuild returned it -- nothing is trimmed or appended (a final newline separates it from what
+// follows).  Assumed about esbuild: its output, like its input, contains no byte sequence that reads as a source-map hint.
+//@ extern github.com/evanw/esbuild/pkg/api.Transform
+//@   param input options
+//@   ensures wf(result.Code)
+//@ extern github.com/neelance/sourcemap.ReadFrom
+//@ extern github.com/neelance/sourcemap.Map.DecodedMappings
+//@ extern bytes.NewReader
+// wf is defined by recursion over the contents of its argument: two byte strings with the same contents are both
+// well formed or both not (stated as an axiom of the abstraction; []byte(s) is a fresh array with the contents of s).
+//@ axiom wfContents(a []byte, b []byte): (len(a) == len(b) && forall(k, 0, len(a), a[k] == b[k])) ==> (wf(a) == wf(b))
+//@ func internal/sourcemapx.Filter.WriteJS
+//@ property C16
+//@   panics_only_if true
+// (the source handed in contains no hint bytes: it is hand-written JavaScript)
+//@   requires wf(jsSource)
+//@   requires f != nil && 0 <= f.line && f.line <= 1000000000000000 && 0 <= f.column && f.column <= 1000000000000000
+//@   loop 1 invariant true
+//@   loop 2 invariant true
+//@   loop 3 invariant true
+//@   oncall jsMappingCallback: assert true
+//@   oncall Write: use wfContents(a0, jsSource) if !minify && f.jsMappingCallback == nil
+//@   oncall Write: assert (minify || f.jsMappingCallback != nil) ==> samearr(a0, result.Code) && len(a0) == len(result.Code)
